@@ -4,7 +4,7 @@ from ..kits import describe, enzyme_geometry, synthetic_part
 from ..fold import Enzyme
 from ..loader import AnalysisError
 from ..rules_misc import characterize_rule
-from ..rules_pattern import enzymes_for_tier, part_erasure, _delegates_to_super
+from ..rules_pattern import enzymes_for_tier, part_erasure, _delegates_to_super, effective_structure_owner
 
 
 def run(ctx):
@@ -27,9 +27,9 @@ def run(ctx):
     for kc in ctx.inventory:
         if not (kc.concrete and kc.is_part):
             continue
-        if kc.structure_owner is ap or (kc.structure_owner is kc.ci and _delegates_to_super(kc)):
+        if effective_structure_owner(p, kc) is ap:
             n += 1
-            part_erasure(ctx, kc, "C05.part")
+            ctx.guard(part_erasure, ctx, kc, "C05.part")
             # same screened _match as the generic sibling
             sib = "moclo.core.modules.AbstractModule" if kc.role == "module" else "moclo.core.vectors.AbstractVector"
             o, raw = p.class_attr_def(kc.ci, "_match")
@@ -43,7 +43,7 @@ def run(ctx):
                  "%s declares the signature %r but its structure() resolves (MRO: %s) to %s, which ignores the signature: the type accepts every %s of its enzyme"
                  % (kc.ci.name, kc.signature, " > ".join(getattr(c, "name", str(c)) for c in p.mro(kc.ci)[:4]), kc.structure_func.qualname if kc.structure_func else "?", kc.role), kc.ci.where())
     r.floor("C05.part.erasure", 55)
-    if ctx.thorough:
+    if True:  # every enzyme in scope, in the quick tier too: a structure that is right for the four bundled cutters only is the typical hole
         for e in enzymes_for_tier(ctx):
             site, nn, k = enzyme_geometry(Enzyme.get(e))
             for role in ("module", "vector"):
@@ -51,7 +51,7 @@ def run(ctx):
                 kc = describe(p, ctx.folder, ctx.lettermap, ci)
                 if not kc.concrete:
                     raise AnalysisError("symbolic %s part over %s does not fold: %s" % (role, e, kc.abstract_reason))
-                part_erasure(ctx, kc, "C05.symbolic-part", symbolic=True)
+                ctx.guard(part_erasure, ctx, kc, "C05.symbolic-part", symbolic=True)
     ctx.guard(characterize_rule, ctx, "C05.characterize")
     from ..kernels import run_kernels
     run_kernels(ctx, ["K10", "K1"], "C05")
